@@ -1217,7 +1217,7 @@ pub fn run(ctx: &Ctx) {
     }
     // (d) random trees
     let mut rng = Rng::new(ctx.seed);
-    let n = if thorough { 60000 } else { 6000 };
+    let n = if thorough { 300000 } else { 6000 };
     for i in 0..n {
         let family = rng.below(2) as u8;
         let panics = i % 10 == 0;
